@@ -35,7 +35,7 @@ struct HMeta {
     inbound: Inb,
     responses: &'static [(u16, Option<&'static str>)],
 }
-const CATALOGUE: [HMeta; 15] = [
+const CATALOGUE: [HMeta; 17] = [
     HMeta { params: &[], inbound: Inb::None, responses: &[(200, Some("text/plain"))] },
     HMeta { params: &[], inbound: Inb::None, responses: &[(200, Some("application/json"))] },
     HMeta { params: &["string"], inbound: Inb::None, responses: &[(200, Some("text/plain"))] },
@@ -51,6 +51,8 @@ const CATALOGUE: [HMeta; 15] = [
     HMeta { params: &[], inbound: Inb::None, responses: &[(204, None)] },
     HMeta { params: &["integer", "string"], inbound: Inb::Form, responses: &[(200, Some("text/plain"))] },
     HMeta { params: &[], inbound: Inb::Json, responses: &[(200, Some("application/json"))] },
+    HMeta { params: &[], inbound: Inb::None, responses: &[(200, Some("application/json"))] },
+    HMeta { params: &[], inbound: Inb::None, responses: &[(200, Some("application/json"))] },
 ];
 
 /// a hand-written schema (as a user would write for a type the derive does not cover), using `openapi::bool()`
@@ -67,6 +69,41 @@ impl openapi::Schema for Flags {
 }
 async fn h_flags(JSON(f): JSON<Flags>) -> JSON<Flags> {
     JSON(f)
+}
+
+/// components that occur only as (or below) the element type of an array
+#[derive(Debug, Clone, Serialize, Deserialize)]
+pub struct Tg {
+    pub label: String,
+}
+impl openapi::Schema for Tg {
+    fn schema() -> impl Into<openapi::schema::SchemaRef> {
+        openapi::component("Tg", openapi::object().property("label", openapi::string()))
+    }
+}
+#[derive(Debug, Clone, Serialize, Deserialize)]
+pub struct Line {
+    pub qty: u32,
+}
+impl openapi::Schema for Line {
+    fn schema() -> impl Into<openapi::schema::SchemaRef> {
+        openapi::component("Line", openapi::object().property("qty", openapi::integer()))
+    }
+}
+#[derive(Debug, Clone, Serialize, Deserialize)]
+pub struct Order {
+    pub lines: Vec<Line>,
+}
+impl openapi::Schema for Order {
+    fn schema() -> impl Into<openapi::schema::SchemaRef> {
+        openapi::component("Order", openapi::object().property("lines", openapi::array(Line::schema())))
+    }
+}
+async fn h_vec_component() -> JSON<Vec<Tg>> {
+    JSON(vec![Tg { label: "a".into() }])
+}
+async fn h_nested_vec_component() -> JSON<Order> {
+    JSON(Order { lines: vec![Line { qty: 1 }] })
 }
 
 fn sample_j() -> J {
@@ -191,7 +228,9 @@ fn reg_op(acc: Option<HandlerSet>, path: &'static str, op: &OOp) -> HandlerSet {
         11 => reg_auth(acc, path, m, a, h_p1_query),
         12 => reg_auth(acc, path, m, a, h_nocontent),
         13 => reg_auth(acc, path, m, a, h_p2_form),
-        _ => reg_auth(acc, path, m, a, h_flags),
+        14 => reg_auth(acc, path, m, a, h_flags),
+        15 => reg_auth(acc, path, m, a, h_vec_component),
+        _ => reg_auth(acc, path, m, a, h_nested_vec_component),
     }
 }
 
@@ -268,6 +307,10 @@ fn names_ok(app: &OApp) -> bool {
     })
 }
 
+fn has_root_mount(app: &OApp) -> bool {
+    app.items.iter().any(|it| matches!(it, OItem::Mount { prefix, app } if prefix.is_empty() || has_root_mount(app)))
+}
+
 /// full prefixes of all mounts, at any depth
 fn mount_prefixes(app: &OApp, prefix: &[Seg], out: &mut Vec<Vec<Seg>>) {
     for it in &app.items {
@@ -300,6 +343,7 @@ fn normalize(app: &mut OApp, prefix: &[Seg], taken: &mut Vec<(Vec<Seg>, M)>, dep
     let mut local: Vec<Vec<Seg>> = Vec::new();
     let mut mounts: Vec<Vec<Seg>> = Vec::new();
     let mut static_mounts: Vec<Seg> = Vec::new();
+    let mut root_mounted = false;
     for it in std::mem::take(&mut app.items) {
         match it {
             OItem::Route { mut segs, mut ops } => {
@@ -339,7 +383,19 @@ fn normalize(app: &mut OApp, prefix: &[Seg], taken: &mut Vec<(Vec<Seg>, M)>, dep
                 kept.push(OItem::Route { segs, ops });
             }
             OItem::Mount { prefix: mut p, app: mut sub } => {
-                if depth >= 2 || p.is_empty() {
+                if depth >= 2 {
+                    continue;
+                }
+                if p.is_empty() {
+                    // `"/".By(child)`: the child's routes live in the parent's own name space. Kept when the child is
+                    // all static (no parameter node can meet one of the parent's: C01's recorded finding) and at most
+                    // one such mount per application
+                    if has_params(&sub) || root_mounted {
+                        continue;
+                    }
+                    root_mounted = true;
+                    normalize(&mut sub, prefix, taken, depth + 1);
+                    kept.push(OItem::Mount { prefix: p, app: sub });
                     continue;
                 }
                 let mut seen = 0;
@@ -390,14 +446,14 @@ fn oapp_strategy(depth: u32) -> BoxedStrategy<OApp> {
         3 => prop_oneof![Just("users"), Just("items"), Just("a"), Just("v1"), Just("me")].prop_map(|s| Seg::S(s.to_string())),
         2 => prop_oneof![Just("id"), Just("name"), Just("p")].prop_map(|s| Seg::P(s.to_string())),
     ];
-    let op = (0usize..5, 0u8..15, prop_oneof![4 => Just(0u8), 1 => Just(1u8), 1 => Just(2u8)]).prop_map(|(m, handler, local_auth)| OOp { method: REG_METHODS[m], handler, local_auth });
+    let op = (0usize..5, 0u8..17, prop_oneof![4 => Just(0u8), 1 => Just(1u8), 1 => Just(2u8)]).prop_map(|(m, handler, local_auth)| OOp { method: REG_METHODS[m], handler, local_auth });
     let route = (vec(seg.clone(), 0..=3), vec(op, 1..=3)).prop_map(|(segs, ops)| OItem::Route { segs, ops });
     let tag = prop::option::weighted(0.3, 0u8..3);
     let auth = prop_oneof![4 => Just(0u8), 1 => Just(1u8), 1 => Just(2u8)];
     if depth >= 2 {
         (tag, auth, vec(route, 0..=4)).prop_map(|(tag, auth, items)| OApp { tag, auth, items }).boxed()
     } else {
-        let mount = (vec(seg, 1..=2), oapp_strategy(depth + 1)).prop_map(|(prefix, app)| OItem::Mount { prefix, app });
+        let mount = (prop_oneof![7 => vec(seg, 1..=2), 1 => Just(vec![])], oapp_strategy(depth + 1)).prop_map(|(prefix, app)| OItem::Mount { prefix, app });
         (tag, auth, vec(route, 0..=4), vec(mount, 0..=2), prop::bool::weighted(0.3))
             .prop_map(|(tag, auth, mut items, mounts, mounts_first)| {
                 if mounts_first {
@@ -435,7 +491,7 @@ fn collect_refs(v: &serde_json::Value, out: &mut Vec<String>) {
 impl Property for C15 {
     type Case = Case;
     const ID: &'static str = "C15";
-    const RULE: &'static str = "generated: applications assembled (hook H1) from a compiled catalogue of 14 handler signatures (0–2 path params of string/integer type, Query/JSON/URLEncoded/Multipart extractors over derived schemas, text/JSON/typed-status/Result returns), nested mounts with param prefixes, openapi::Tag, JWT/BasicAuth fangs on any application or locally, handlers with fewer params than the route captures. Oracle: the bytes of the generated document parse as JSON; every embedded schema validates against the JSON Schema 2020-12 meta-schema (Python jsonschema sidecar); every $ref resolves; path/method pairs = flattened route table with :p → {p}; every {p} is a declared required path parameter and the operation's path parameters are the route's params in order; request body media type, query parameters and response statuses as the signature says; security present iff an auth fang is in the operation's chain, and iff the running application answers 401 to the operation's request sent without credentials; one request per documented operation is not 404. Non-trivial = an application with a mount, a path param and at least one extractor; distinct by case.";
+    const RULE: &'static str = "generated: applications assembled (hook H1) from a compiled catalogue of 17 handler signatures (0–2 path params of string/integer type, Query/JSON/URLEncoded/Multipart extractors over derived schemas, text/JSON/typed-status/Result returns, components used only below array items), nested mounts with param prefixes or at the root (`\"/\".By(child)`), openapi::Tag, JWT/BasicAuth fangs on any application or locally, handlers with fewer params than the route captures. Oracle: the bytes of the generated document parse as JSON; every embedded schema validates against the JSON Schema 2020-12 meta-schema (Python jsonschema sidecar); every $ref resolves; path/method pairs = flattened route table with :p → {p}; every {p} is a declared required path parameter and the operation's path parameters are the route's params in order; request body media type, query parameters and response statuses as the signature says; security present iff an auth fang is in the operation's chain, and iff the running application answers 401 to the operation's request sent without credentials; one request per documented operation is not 404. Non-trivial = an application with a mount, a path param and at least one extractor; distinct by case.";
     const ASSUMPTIONS: &'static [&'static str] = &[
         "mounts get a first segment of their own (nodes shared between a mount and outside routes are C01's recorded finding)",
         "operationId uniqueness and tags are not checked (the statement does not list them)",
@@ -478,7 +534,9 @@ impl Property for C15 {
         // them the model makes no claim; the comparison of the document with the running server below still applies.
         let mut mounts: Vec<Vec<Seg>> = Vec::new();
         mount_prefixes(&case.app, &[], &mut mounts);
-        let shared = |op: &FlatOp| mounts.iter().any(|q| q.iter().zip(&op.segs).take_while(|(a, b)| a.unify_eq(b)).count() > op.own_prefix_len);
+        // (an application mounted at "/" shares its parent's whole name space)
+        let any_root_mount = has_root_mount(&case.app);
+        let shared = |op: &FlatOp| any_root_mount || mounts.iter().any(|q| q.iter().zip(&op.segs).take_while(|(a, b)| a.unify_eq(b)).count() > op.own_prefix_len);
         let has_mount = case.app.items.iter().any(|i| matches!(i, OItem::Mount { .. }));
         obs.nontrivial = has_mount && flat.iter().any(|o| n_params(&o.segs) > 0) && flat.iter().any(|o| CATALOGUE[o.handler].inbound != Inb::None);
         let built = panic::catch(std::panic::AssertUnwindSafe(|| {
